@@ -41,9 +41,12 @@ def run(ctx, driver):
         stubs = impl["stubs"]
         eff_mk = c["maxc"] if c["mk"] is None else min(c["maxc"], c["mk"])
         after = [stubs[i] for i in impl["conns"]]
-        # idle bound
-        if sum(1 for s in after if s.idle) > eff_mk:
+        # idle bound; an idle connection that a request had been handed before this pass (and has not started on yet) is exempt:
+        # it is about to be used (closing it is finding F-C08-a). With no such request - sequential use - this is the plain bound.
+        handed_before = {a for _rid, _o, a in c["reqs"] if a is not None}
+        if sum(1 for s in after if s.idle and s.cid not in handed_before) > eff_mk:
             rec.fail("idle-above-keepalive-limit", {}, payload)
+        rec.dist["idle-bound:strict" if not handed_before else "idle-bound:with-handed-out-connections"] += 1
         # expired / closed never kept, never handed out
         if any(s.expired or s.closed for s in after):
             rec.fail("expired-or-closed-kept", {}, payload)
